@@ -195,6 +195,16 @@ func c13Universe(size int, lvl stack.Similarity) []sigSpec {
 			add(sigSpec{Frames: []frameSpec{{Loc: stack.GOPATH, Fn: "Zz", Dir: dir, Line: line}}})
 		}
 	}
+	// two frames sharing function and file, with the lines, the functions or the files ordered
+	// one way in the first frame and the other way in the second: the first difference decides
+	for _, v := range [][2]frameSpec{
+		{{Loc: stack.Stdlib, Fn: "Wt", Dir: "d/w.go", Line: 30}, {Loc: stack.Stdlib, Fn: "Rn", Dir: "d/w.go", Line: 12}},
+		{{Loc: stack.Stdlib, Fn: "Wt", Dir: "d/w.go", Line: 20}, {Loc: stack.Stdlib, Fn: "Rn", Dir: "d/w.go", Line: 15}},
+		{{Loc: stack.Stdlib, Fn: "Wb", Dir: "d/w.go", Line: 20}, {Loc: stack.Stdlib, Fn: "Ra", Dir: "d/w.go", Line: 15}},
+		{{Loc: stack.Stdlib, Fn: "Wt", Dir: "e/w.go", Line: 20}, {Loc: stack.Stdlib, Fn: "Rn", Dir: "c/w.go", Line: 15}},
+	} {
+		add(sigSpec{Frames: []frameSpec{v[0], v[1]}})
+	}
 	if size > len(u) {
 		// thorough: more depth-3 and attribute combinations
 		for i := 0; len(u) < size; i++ {
